@@ -91,7 +91,7 @@ M = [
     # ---------------------------------------------------------------- C12
     ("C12", Y, "perm[9]  = [[ 0,  1,  0], [ 0,  0, -1], [-1,  0,  0]]", "perm[9]  = [[ 0,  1,  0], [ 0,  0, 1], [-1,  0,  0]]", None, "violation", "C12:perm:7:closed"),
     ("C12", Y, "lengths = 0.5 * (rot * np.dot(umat_1.T, umat_2)).sum(axis=(1, 2)) - 0.5", "lengths = 0.5 * (rot * np.dot(umat_1, umat_2)).sum(axis=(1, 2)) - 0.5", None, "violation", "C12:umis:trace-formula"),
-    ("C12", Y, "            rot[i] = np.dot(B,np.dot(np.linalg.inv(perm[i]),Binv))", "            rot[i] = np.dot(B,np.dot(perm[i],Binv))", 1, "violation", "C12:pair:5:inverse"),
+    ("C12", Y, "            rot[i] = np.dot(B,np.dot(np.linalg.inv(perm[i]),Binv))", "            rot[i] = np.dot(B,np.dot(perm[i],Binv))", 1, "violation", "C12:pair:5"),
     ("C12", Y, "for i in range(1,8)]", "for i in range(1,7)]+[np.eye(3)[None]]", None, "violation", "C12:cache:ROTATIONS"),
     # ---------------------------------------------------------------- C13 / C14
     ("C13", T, "    Binv[0, 2] = (2*epsilon[2]-B0[0, 1]*Binv[1, 2]-B0[0, 2]*Binv[2, 2])/B0[0, 0]", "    Binv[0, 2] = (2*epsilon[2]-B0[0, 1]*Binv[1, 2]+B0[0, 2]*Binv[2, 2])/B0[0, 0]", None, "violation", "C13:e2b:tools.epsilon_to_b:eq13"),
@@ -147,7 +147,7 @@ M += [
      '            sgname = sub("\\s+", "", sgname).lower()\n            klass_name = sgdic[sgname] \n            if sgname[0]=="r" and sgname[-1]=="r":', None, "silent", ""),
     ("C04", SG, '            klass_name = sgdic[sub("\\s+", "", sgname).lower()] \n            if sub("\\s+", "", sgname).lower()[0]=="r" and sub("\\s+", "", sgname).lower()[-1]=="r":',
      '            sgname = sub("\\s+", "", sgname)\n            klass_name = sgdic[sgname.lower()] \n            if sgname.startswith("R") and sgname.endswith("r"):', None, "violation", "C04:lookup:r-suffix"),
-    ("C12", Y, "            rot[i] = np.dot(B,np.dot(np.linalg.inv(perm[i]),Binv))", "            rot[i] = np.dot(B,np.dot(perm[i].T,Binv))", 2, "violation", "C12:pair:6:inverse"),
+    ("C12", Y, "            rot[i] = np.dot(B,np.dot(np.linalg.inv(perm[i]),Binv))", "            rot[i] = np.dot(B,np.dot(perm[i].T,Binv))", 2, "violation", "C12:pair:6"),
     ("C13", L, "    T = np.dot(B0,np.linalg.inv(B))", "    T = np.linalg.solve(B, B0)", None, "violation", "C13:b2e:laue.b_to_epsilon"),
     ("C13", L, "    T = np.dot(B0,np.linalg.inv(B))", "    T = np.linalg.solve(B.T, B0.T).T", None, "silent", ""),
     ("C15", S, "    for i in range(mysg.nsymop):\n        lp[i, :] = n.dot(mysg.rot[i], position) + mysg.trans[i]\n",
